@@ -170,6 +170,9 @@ Qed.
 Print Assumptions monotone_in_the_source.
 (* vivid light is monotone in the source on each side of 1/2 but drops by about 1e-9 across the seam
    (color_burn(b,1) = (b+e)/(1+e) > color_dodge(b,0) = b/(1+e)); difference and exclusion are not monotone: *)
+Theorem vivid_light_source_monotonicity_refuted : ~ mono_s (vivid_light NR).
+Proof. exact vivid_light_seam_refuted. Qed.
+Print Assumptions vivid_light_source_monotonicity_refuted.
 Theorem difference_exclusion_not_monotone : ~ mono_b (difference NR) /\ ~ mono_b (exclusion NR).
 Proof. exact difference_not_monotone. Qed.
 
@@ -384,3 +387,16 @@ Theorem exec_refines_real_cmyk : forall (m : nonsep_mode) (cb cs : cmyk NQ), Q2R
   Q2R4 (blend_cmyk NQ m cb cs) = blend_cmyk NR m (Q2R4 cb) (Q2R4 cs).
 Proof. exact refine_cmyk. Qed.
 Print Assumptions exec_refines_real_cmyk.
+
+(* the non-separable formula theorems read on the executable instance *)
+Theorem formula_nonseparable_exec : forall cb cs : rgb NQ, unit3Q cb -> unit3Q cs ->
+  close3 (s_sat (Q2R3 cs)) (60 * e9) (Q2R3 (hue_rgb NQ cb cs)) (s_hue (Q2R3 cb) (Q2R3 cs)) /\
+  close3 (s_sat (Q2R3 cb)) (60 * e9) (Q2R3 (saturation_rgb NQ cb cs)) (s_saturation (Q2R3 cb) (Q2R3 cs)) /\
+  close3 1 (20 * e9) (Q2R3 (color_rgb NQ cb cs)) (s_color (Q2R3 cb) (Q2R3 cs)) /\
+  close3 1 (20 * e9) (Q2R3 (luminosity_rgb NQ cb cs)) (s_luminosity (Q2R3 cb) (Q2R3 cs)).
+Proof.
+  intros cb cs Hb Hs. repeat split;
+    [apply formula_hue_exec | apply formula_saturation_exec | apply formula_color_exec | apply formula_luminosity_exec];
+    assumption.
+Qed.
+Print Assumptions formula_nonseparable_exec.
